@@ -41,7 +41,7 @@ func init() {
 		MinEvals:        floor(8000, 150000),
 		MinDistinct:     floor(2000, 40000),
 		RequiredCells: func(string) []string {
-			cells := []string{"purity/did/history", "purity/did/concurrent", "rsa-shapes", "rsa-shapes/small-exponent", "rsa-shapes/odd-bit-length", "coerced-secp256k1/normal", "coerced-secp256k1/short-coordinate", "pairs/equal", "pairs/different", "alt/accepted-canonical", "alt/rejected-by-parse", "alt/rejected-by-pubkey", "string/rejected", "multibase/other", "codec/unsupported", "varint/non-minimal"}
+			cells := []string{"purity/did/history", "purity/did/concurrent", "rsa-shapes", "rsa-shapes/small-exponent", "rsa-shapes/odd-bit-length", "coerced-secp256k1/normal", "coerced-secp256k1/short-coordinate", "pairs/equal", "pairs/different", "alt/accepted-canonical", "alt/rejected-by-parse", "alt/rejected-by-pubkey", "string/rejected", "string/decorated", "multibase/other", "codec/unsupported", "varint/non-minimal"}
 			for _, a := range []string{"ed25519", "secp256k1", "p256", "p384", "p521", "rsa2048", "rsa3072", "rsa4096", "rsa8192"} {
 				cells = append(cells, "roundtrip/"+a)
 			}
@@ -489,6 +489,19 @@ func runC16(w *mon.W) {
 		for _, v := range []string{"DID:KEY:" + body, "did:Key:" + body, " " + s, s + " ", s + "\n", "did:key:" + strings.ToUpper(body), "did:key:" + body[1:], "did:key:" + body + "0", "did:key:" + body[:5] + "O" + body[6:], "did:key:" + body[:5] + "l" + body[6:], "did:web:" + body, "did:key" + body, "key:" + body, body} {
 			c16RejectOnly(w, "textual", v)
 		}
+		// the canonical identifier decorated with what a URL / URI parser would strip or ignore: none
+		// of these is a did:key identifier (accepted => a second spelling of the same principal)
+		for _, suf := range []string{":", ":x", ":" + body, "#", "#" + body, "#key-1", "/", "/path", "?", "?q=1", ";v=1", "%20", "%00", "\x00", "\t", "\r\n", "=", "==", ".", ","} {
+			c16RejectOnly(w, "decorated", s+suf)
+		}
+		for _, pre := range []string{"\n", "\t", "\ufeff", "urn:", "did:key:", ":", "<", "\""} {
+			c16RejectOnly(w, "decorated", pre+s)
+		}
+		c16RejectOnly(w, "decorated", "did:key::"+body)
+		c16RejectOnly(w, "decorated", "did::key:"+body)
+		c16RejectOnly(w, "decorated", "did:key:"+body[:len(body)/2]+":"+body[len(body)/2:])
+		c16RejectOnly(w, "decorated", "did:key:"+body[:len(body)/2]+" "+body[len(body)/2:])
+		w.Cover("string/decorated")
 	}
 	// 2. pairs
 	for i, a := range keys {
